@@ -4,6 +4,7 @@ mod spy;
 mod api;
 mod termconf;
 mod show;
+mod est;
 
 use std::io::{BufRead, BufWriter, Write};
 
@@ -45,6 +46,15 @@ fn main() {
                         "panic": format!("process aborted (status {status}): panic while panicking"), "pipe": 0, "failed": 0,
                         "frac": -1, "shown": [], "get": {"has": false, "pos": [0,0,0,0,0], "pos_s": 0, "len": [0,0,0,0,0], "len_s": 0, "haslen": false, "msg": [], "prefix": [], "fin": false}})).unwrap();
                 }
+            }
+        }
+        "est" => {
+            clock::enable();
+            for line in input.lines() {
+                let line = line.unwrap();
+                if line.trim().is_empty() { continue; }
+                let hist: serde_json::Value = serde_json::from_str(&line).expect("bad history json");
+                est::run_history(&hist, &mut out);
             }
         }
         "show" => {
